@@ -113,7 +113,10 @@ RenderFmt(j) ==
 (* solver options TraceStep (inside / outside the horizon) and initial steady state.  Once  *)
 (* the preparation has begun the next steps are the   *)
 (* rest of it and the Solve, so that it does not interleave with the other calls.            *)
-CanSolve == /\ phase = "build" /\ NumMut < MaxMut /\ NumObs < MaxObs
+(* a history that parses blocks on the solver object has at most two mutations (the two solves, *)
+(* or one solve and one edit of its results)                                                    *)
+MutBudget == IF OpsOf({"block"}) # << >> /\ MaxMut > 2 THEN 2 ELSE MaxMut
+CanSolve == /\ phase = "build" /\ NumMut < MutBudget /\ NumObs < MaxObs
             /\ \A n \in DOMAIN holder : holder[n].kind = "num" /\ holder[n].len = 1
 Configuring == phase = "build" /\ (stated # Unstated \/ conds # {} \/ pending.is)
 (* blocks parsed on the solver object itself: the first one on an untouched holder, a second one *)
@@ -129,7 +132,7 @@ EditNext ==
     \/ /\ Configuring /\ pending.is
        /\ \/ ~stated.block.is /\ \E h \in Horizons : StateHorizon("block", h)
           \/ stated.block.is /\ Solve({})
-    \/ /\ ~Configuring /\ UseBlocks /\ NumMut < MaxMut /\ NumObs < MaxObs
+    \/ /\ ~Configuring /\ UseBlocks /\ NumMut < 2 /\ NumMut < MaxMut /\ NumObs < MaxObs
        /\ conds = {} /\ opts = NoOpts
        /\ (phase = "run" \/ hist = << >>)
        /\ \E V \in BlockSets : Block(V)
@@ -145,7 +148,7 @@ EditNext ==
        /\ \/ MaxConds > 0 /\ \E c \in CondChoices : Condition(c.name, c.sp)
           \/ \E h \in Horizons : StateHorizon("block", h) \/ StateHorizon("solver", h)
           \/ Solve({})
-    \/ /\ ~Configuring /\ NumMut < MaxMut /\ NumObs < MaxObs      \* a mutation nobody looks at afterwards is not explored
+    \/ /\ ~Configuring /\ NumMut < MutBudget /\ NumObs < MaxObs    \* a mutation nobody looks at afterwards is not explored
        /\ \/ \E n \in Names : \E kind \in HistKinds : \E len \in 0..MaxLen :
                 Put(n, len, kind) \/ Store(n, len, kind)
           \/ \E n \in DOMAIN holder : Delete(n)
